@@ -21,6 +21,7 @@ import Driver.NoxOps
 import Driver.IntegrateOps
 import Driver.HybridOps
 import Driver.ProfileOps
+import Driver.ValidateOps
 open Lean Driver
 
 def dispatch (op : String) (j : Json) : Except String Json :=
@@ -40,6 +41,7 @@ def dispatch (op : String) (j : Json) : Except String Json :=
   | "integrate" => integrateOp op j
   | "hybrid" => hybridOp op j
   | "profile" => profileOp op j
+  | "validate" => validateOp op j
   | _ => .error s!"unknown op family in '{op}'"
 
 def handle (line : String) : String :=
